@@ -112,15 +112,15 @@ def walk (p : Bytes) : Nat → Nat → List UInt8
 /-- the number of `update_keys` calls a record with plaintext `p` triggers: the 20s among the walked type bytes -/
 def seenFins (p : Bytes) : Nat := ((walk p p.length 0).filter (· = 20)).length
 
-theorem hs13Loop_walk {δ : Type} (O : Session.Ops δ) (srv : Bool) (p : Bytes) :
+theorem legacy_hs13Loop_walk {δ : Type} (O : Session.Ops δ) (srv : Bool) (p : Bytes) :
     ∀ (fuel i : Nat) (d : δ),
-      Session.hs13Loop O p srv fuel i d = updFold O srv d ((walk p fuel i).map fun t => ((t, []) : HsMsg)) := by
+      Session.Legacy.hs13Loop O p srv fuel i d = updFold O srv d ((walk p fuel i).map fun t => ((t, []) : HsMsg)) := by
   intro fuel
   induction fuel with
   | zero => intro i d; rfl
   | succ n ih =>
     intro i d
-    rw [Session.hs13Loop, walk]
+    rw [Session.Legacy.hs13Loop, walk]
     cases hp : p[i]? with
     | none => rfl
     | some t =>
@@ -141,51 +141,6 @@ theorem finCount_walk (l : List UInt8) :
   | cons t r ih =>
     rw [List.map_cons, finCount_cons, ih]
     by_cases h : t = 20 <;> simp [List.filter_cons, h]; omega
-
-/-- a protected TLS 1.3 handshake record carrying ANY bytes `b` of the sender's handshake stream, after which the
-    sender has switched `n` times: if the tool's walk over `b` sees exactly `n` type-20 bytes, nothing is exported and
-    the decryptor stays related to the sender -/
-theorem handleRecord_frag13 (H : Crypto.Prims) (P : Prims) (L : SealLaws P) (kl : List Keylog.Key) (cls : CipherClass)
-    (h13 : cls.is13 = true) (macLen : Nat) (ver : Bytes) (hv : ver.length = 2) (x : Snd) (s : Session.St Dec)
-    (hs : Ready cls macLen x s) (srv : Bool) (b : Bytes) (n : Nat) (f : Fresh) (hn : seenFins b = n)
-    (hq : max x.c.seq x.s.seq + (1 + n) ≤ seqLimit) (m : Bool) (car : List Nat) :
-    let o := protect P L cls ver (x.get srv) 22 b f
-    let x' := x.set srv (switchN n o.1)
-    (Session.handleRecord (Pipeline.ops H P kl) m s ⟨o.2, car⟩ srv).traffic = s.traffic ∧
-      Ready cls macLen x' (Session.handleRecord (Pipeline.ops H P kl) m s ⟨o.2, car⟩ srv) ∧
-      max x'.c.seq x'.s.seq ≤ max x.c.seq x.s.seq + (1 + n) := by
-  obtain ⟨hcan, ⟨v, hver, hv13⟩, d, hdec, hR⟩ := hs
-  obtain ⟨h1, h2, h3, h4⟩ := step_exact P L cls macLen ver hv x d hR (.send srv 22 b f)
-    (sendOk_13 cls h13 macLen _ f) (by omega)
-  simp only [step, expected] at h1 h2 h3 h4
-  intro o x'
-  change (x.set srv o.1).c.seq ≤ _ at h3
-  change (x.set srv o.1).s.seq ≤ _ at h4
-  have hd : (Pipeline.ops H P kl).decrypt d ⟨o.2, car⟩ srv
-      = ((recvStep P d (.record srv o.2)).1, some (some (delivered cls 22 b f))) := by
-    rw [ops_decrypt, h1]; rfl
-  have hcnt : finCount ((walk b b.length 0).map fun t => ((t, []) : HsMsg)) = n := by
-    rw [finCount_walk]; exact hn
-  obtain ⟨d', e1, e2, e3⟩ := updFold_rel H P L kl cls h13 macLen ver hv srv
-    ((walk b b.length 0).map fun t => ((t, []) : HsMsg)) (x.set srv o.1)
-    (recvStep P d (.record srv o.2)).1 h2 (by rw [hcnt]; omega)
-  rw [hcnt, after_switches, Lemmas.RecLayer.sget_set, set_set] at e2 e3
-  have heq : Session.handleRecord (Pipeline.ops H P kl) m s ⟨o.2, car⟩ srv
-      = ({ s with dec := some d' } : Session.St Dec) := by
-    unfold Session.handleRecord Session.handleRecordRaw
-    have htyp : (⟨o.2, car⟩ : Session.Rec).typ = some 23 := protect_head_13 P L cls h13 ver _ 22 _ f
-    have hve : v = .tls13 := hv13.mpr h13
-    subst hve
-    rw [htyp]
-    simp only [hcan, hdec, hver]
-    have hrs : Session.rstrip0 (delivered cls 22 b f) = b ++ [22] := by
-      rw [delivered_13 cls h13]; exact rstrip0_inner _ 22 f.pad13 (by decide)
-    have hloop := hs13Loop_walk (Pipeline.ops H P kl) srv b b.length 0 (recvStep P d (.record srv o.2)).1
-    simp [Session.app13, hdec, hd, hrs, Session.Out.st, hcan, hver, Session.tryExcept, hloop, e1]
-  change max x'.c.seq x'.s.seq ≤ _ at e3
-  refine ⟨by rw [heq], ?_, by omega⟩
-  rw [heq]
-  exact ⟨hcan, ⟨v, hver, hv13⟩, _, rfl, e2⟩
 
 -- ------------------------------------------------------------------ the session over fragmenting scripts
 def evRawF (P : Prims) (L : SealLaws P) (cls : CipherClass) (ver : Bytes) (sd : SDir) : FEv → Bytes
@@ -209,14 +164,6 @@ theorem sendDirF_eq_nil (P : Prims) (L : SealLaws P) (cls : CipherClass) (ver : 
   | nil => rfl
   | cons e r => rw [sendDirF_cons] at h; cases h
 
-/-- LOCKSTEP: the tool's walk over the record's plaintext sees as many type-20 bytes as Finished messages end in the
-    record (the sender's switches). The hypothesis of the partial result. -/
-def Lock : FEv → Prop
-  | .frag b n _ => seenFins b = n
-  | _ => True
-
-instance (e : FEv) : Decidable (Lock e) := by cases e <;> unfold Lock <;> infer_instance
-
 def costF : List FEv → Nat
   | [] => 0
   | .frag _ n _ :: r => 1 + n + costF r
@@ -230,31 +177,48 @@ theorem plainOfF_cons (e : FEv) (r : List FEv) : plainOfF (e :: r) = plainOfF [e
 
 def updF (rem : Bool → List FEv) (d : Bool) (l : List FEv) : Bool → List FEv := fun d' => if d' = d then l else rem d'
 
+/-- how the records of a fragmenting script meet the buffer: with `t` buffered, each handshake record's bytes complete
+    the messages `newly` (whose Finished count is the record's `fins`) and leave the unfinished tail `t'` -/
+def Plan : Bytes → List FEv → Prop
+  | _, [] => True
+  | t, .ccs :: r => Plan t r
+  | t, .app _ _ :: r => Plan t r
+  | t, .frag b n _ :: r =>
+    ∃ (newly : List HsMsg) (t' : Bytes), t ++ b = encMsgs newly ++ t' ∧ Incomplete t' ∧ (∀ m ∈ newly, MsgOk m) ∧
+      n = finCount newly ∧ Plan t' r
+
+theorem updB_self (bf : Bool → Bytes) (d : Bool) : updB bf d (bf d) = bf := by
+  funext d'; unfold updB; split <;> simp_all
+
 theorem stepF (H : Crypto.Prims) (P : Prims) (L : SealLaws P) (kl : List Keylog.Key) (cls : CipherClass)
     (h13 : cls.is13 = true) (macLen : Nat) (ver : Bytes) (hv : ver.length = 2) (x : Snd) (s : Session.St Dec)
-    (hs : Ready cls macLen x s) (d : Bool) (e : FEv) (car : List Nat) (hlock : Lock e)
-    (hq : max x.c.seq x.s.seq + costF [e] ≤ seqLimit) :
+    {bf : Bool → Bytes} (hs : ReadyB cls macLen x s bf) (d : Bool) (e : FEv) (rest : List FEv) (car : List Nat)
+    (hplan : Plan (bf d) (e :: rest)) (hq : max x.c.seq x.s.seq + costF [e] ≤ seqLimit) :
     let s' := Session.handleRecord (Pipeline.ops H P kl) false s ⟨evRawF P L cls ver (x.get d) e, car⟩ d
     let x' := x.set d (evNextF P L cls ver (x.get d) e)
-    Ready cls macLen x' s' ∧
+    ∃ t', ReadyB cls macLen x' s' (updB bf d t') ∧ Plan t' rest ∧
     (∀ d', dirPlain d' s'.traffic = dirPlain d' s.traffic ++ (if d' = d then plainOfF [e] else [])) ∧
     max x'.c.seq x'.s.seq ≤ max x.c.seq x.s.seq + costF [e] := by
   intro s' x'
   cases e with
   | ccs =>
-    obtain ⟨a1, a2, a3, _, _, _, a7⟩ := handleRecord_ccs (Pipeline.ops H P kl) false s
+    obtain ⟨a1, a2, a3, _, _, _, a7, a8, a9⟩ := handleRecord_ccs (Pipeline.ops H P kl) false s
       ⟨record 20 ver [1], car⟩ d (record_typ 20 ver [1] car)
     have hx : x' = x := set_get x d
     rw [hx]
-    refine ⟨hs.of_eq a1 a2 a3, ?_, by omega⟩
+    refine ⟨bf d, by rw [updB_self]; exact hs.of_eq a1 a2 a3 a8 a9, hplan, ?_, by omega⟩
     intro d'
     show dirPlain d' (Session.handleRecord _ false s ⟨record 20 ver [1], car⟩ d).traffic = _
     rw [a7 rfl]; simp [plainOfF]
   | frag b n f =>
+    obtain ⟨newly, t', hsplit, hinc, hms, hn, hrest⟩ := hplan
+    subst hn
     simp only [costF] at hq
-    obtain ⟨b1, b2, b3⟩ := handleRecord_frag13 H P L kl cls h13 macLen ver hv x s hs d b n f hlock (by omega) false car
+    obtain ⟨b1, b2, b3⟩ := handleRecord_frag H P L kl cls h13 macLen ver hv x s hs d b f newly t' hms hsplit hinc
+      (by omega) false car
+    rw [after_switches, Lemmas.RecLayer.sget_set, set_set] at b2 b3
     change max x'.c.seq x'.s.seq ≤ _ at b3
-    refine ⟨b2, ?_, by simp only [costF]; omega⟩
+    refine ⟨t', b2, hrest, ?_, by simp only [costF]; omega⟩
     intro d'
     show dirPlain d' (Session.handleRecord _ false s ⟨(protect P L cls ver (x.get d) 22 b f).2, car⟩ d).traffic = _
     rw [b1]; simp [plainOfF]
@@ -264,29 +228,29 @@ theorem stepF (H : Crypto.Prims) (P : Prims) (L : SealLaws P) (kl : List Keylog.
       (sendOk_13 cls h13 macLen pt f) (by omega) false car
     change x'.c.seq ≤ _ at c3
     change x'.s.seq ≤ _ at c4
-    refine ⟨c2, ?_, by simp only [costF]; exact Nat.max_le.mpr ⟨by omega, by omega⟩⟩
+    refine ⟨bf d, by rw [updB_self]; exact c2, hplan, ?_, by simp only [costF]; exact Nat.max_le.mpr ⟨by omega, by omega⟩⟩
     intro d'
     show dirPlain d' (Session.handleRecord _ false s ⟨(protect P L cls ver (x.get d) 23 pt f).2, car⟩ d).traffic = _
     rw [c1, dirPlain_push]
     simp [plainOfF]
 
-/-- TLS 1.3 after the ServerHello with FRAGMENTED handshake records: `Session` over any interleaving of the two sides'
-    records exports each side's application plaintexts exactly — provided every handshake record is in LOCKSTEP -/
+/-- TLS 1.3 after the ServerHello with handshake messages FRAGMENTED anywhere: `Session` (as repaired: per-direction
+    buffer) over any interleaving of the two sides' records exports each side's application plaintexts exactly -/
 theorem run_mergeF (H : Crypto.Prims) (P : Prims) (L : SealLaws P) (kl : List Keylog.Key) (cls : CipherClass)
     (h13 : cls.is13 = true) (macLen : Nat) (ver : Bytes) (hv : ver.length = 2) (M : List (Session.Rec × Bool)) :
-    ∀ (x : Snd) (s : Session.St Dec) (rem : Bool → List FEv), Ready cls macLen x s →
-      (∀ d, ∀ e ∈ rem d, Lock e) →
+    ∀ (x : Snd) (s : Session.St Dec) (rem : Bool → List FEv) (bf : Bool → Bytes), ReadyB cls macLen x s bf →
+      (∀ d, Plan (bf d) (rem d)) →
       (∀ d, (M.filter fun q => q.2 == d).map (·.1.raw) = sendDirF P L cls ver (x.get d) (rem d)) →
       max x.c.seq x.s.seq + (costF (rem false) + costF (rem true)) ≤ seqLimit →
       ∀ d, dirPlain d (Session.run (Pipeline.ops H P kl) false s M).traffic
         = dirPlain d s.traffic ++ plainOfF (rem d) := by
   induction M with
   | nil =>
-    intro x s rem _ _ hfil _ d
+    intro x s rem bf _ _ hfil _ d
     have := sendDirF_eq_nil P L cls ver _ _ (hfil d).symm
     simp [Session.run, this, plainOfF]
   | cons q M' ih =>
-    intro x s rem hs hlock hfil hq d
+    intro x s rem bf hs hplan hfil hq d
     obtain ⟨r, d0⟩ := q
     have h0 := hfil d0
     rw [filter_dir_cons_same, List.map_cons] at h0
@@ -304,17 +268,14 @@ theorem run_mergeF (H : Crypto.Prims) (P : Prims) (L : SealLaws P) (kl : List Ke
         cases d0
         · simp only [Bool.not_false, hrem] at *; omega
         · simp only [Bool.not_true, hrem] at *; omega
-      obtain ⟨g1, g4, g5⟩ := stepF H P L kl cls h13 macLen ver hv x s hs d0 e r.carriers
-        (hlock d0 e (by rw [hrem]; simp)) (by omega)
+      obtain ⟨t', g1, g2, g4, g5⟩ := stepF H P L kl cls h13 macLen ver hv x s hs d0 e rest r.carriers
+        (hrem ▸ hplan d0) (by omega)
       rw [← hr] at g1 g4
-      have hlock' : ∀ d', ∀ e' ∈ updF rem d0 rest d', Lock e' := by
-        intro d' e' he'
+      have hplan' : ∀ d', Plan (updB bf d0 t' d') (updF rem d0 rest d') := by
+        intro d'
         by_cases hd : d' = d0
-        · subst hd
-          simp only [updF, if_true] at he'
-          exact hlock d' e' (by rw [hrem]; simp [he'])
-        · simp only [updF, hd, if_false] at he'
-          exact hlock d' e' he'
+        · subst hd; simpa [updF, updB] using g2
+        · simp only [updF, updB, hd, if_false]; exact hplan d'
       have hfil' : ∀ d', (M'.filter fun q => q.2 == d').map (·.1.raw)
           = sendDirF P L cls ver ((x.set d0 (evNextF P L cls ver (x.get d0) e)).get d') (updF rem d0 rest d') := by
         intro d'
@@ -330,7 +291,7 @@ theorem run_mergeF (H : Crypto.Prims) (P : Prims) (L : SealLaws P) (kl : List Ke
         have : costF (updF rem d0 rest false) + costF (updF rem d0 rest true) = costF rest + costF (rem (!d0)) := by
           cases d0 <;> simp [updF] <;> omega
         rw [this]; omega
-      have := ih _ _ (updF rem d0 rest) g1 hlock' hfil' hq' d
+      have := ih _ _ (updF rem d0 rest) (updB bf d0 t') g1 hplan' hfil' hq' d
       simp only [Session.run, List.foldl_cons] at this ⊢
       rw [this, g4 d]
       by_cases hd : d = d0
@@ -338,6 +299,332 @@ theorem run_mergeF (H : Crypto.Prims) (P : Prims) (L : SealLaws P) (kl : List Ke
         simp only [updF, if_true, hrem]
         rw [plainOfF_cons e rest, List.append_assoc]
       · simp [updF, hd]
+
+-- ------------------------------------------------------------------ RFC-conformant fragmentation ⇒ a plan
+def msgLen (m : HsMsg) : Nat := 4 + m.2.length
+
+theorem encMsg_length (m : HsMsg) : (encMsg m).length = msgLen m := by
+  simp [encMsg_eq, Lemmas.TlsHello.u24_length, msgLen]; omega
+
+theorem encMsgs_cons (m : HsMsg) (r : List HsMsg) : encMsgs (m :: r) = encMsg m ++ encMsgs r := by simp [encMsgs]
+
+theorem encMsgs_append (a b : List HsMsg) : encMsgs (a ++ b) = encMsgs a ++ encMsgs b := by simp [encMsgs]
+
+/-- the messages of `rm` that fit entirely into the first `L` bytes of its encoding, and the others -/
+def completed : List HsMsg → Nat → List HsMsg × List HsMsg
+  | [], _ => ([], [])
+  | m :: r, L =>
+    if msgLen m ≤ L then (m :: (completed r (L - msgLen m)).1, (completed r (L - msgLen m)).2) else ([], m :: r)
+
+theorem completed_spec (rm : List HsMsg) (L : Nat) :
+    rm = (completed rm L).1 ++ (completed rm L).2 ∧ (encMsgs (completed rm L).1).length ≤ L ∧
+    (∀ m r, (completed rm L).2 = m :: r → L - (encMsgs (completed rm L).1).length < msgLen m) ∧
+    (∀ m ∈ (completed rm L).1, m ∈ rm) := by
+  induction rm generalizing L with
+  | nil => simp [completed, encMsgs]
+  | cons m r ih =>
+    unfold completed
+    by_cases h : msgLen m ≤ L
+    · obtain ⟨i1, i2, i3, i4⟩ := ih (L - msgLen m)
+      simp only [h, if_true]
+      refine ⟨by rw [List.cons_append, ← i1], ?_, ?_, ?_⟩
+      · rw [encMsgs_cons, List.length_append, encMsg_length]; omega
+      · intro m' r' h'
+        have := i3 m' r' h'
+        rw [encMsgs_cons, List.length_append, encMsg_length]; omega
+      · intro m' hm'
+        rcases List.mem_cons.mp hm' with rfl | hm'
+        · simp
+        · exact List.mem_cons_of_mem _ (i4 m' hm')
+    · simp only [h, if_false]
+      refine ⟨rfl, by simp [encMsgs], ?_, by simp⟩
+      intro m' r' h'
+      simp only [List.cons.injEq] at h'
+      rw [← h'.1]; simp [encMsgs]; omega
+
+theorem finEnds_ge (base : Nat) (m : HsMsg) (r : List HsMsg) : ∀ e ∈ finEnds base (m :: r), base + msgLen m ≤ e := by
+  induction r generalizing base m with
+  | nil =>
+    intro e he
+    simp only [finEnds, List.append_nil] at he
+    split at he
+    · simp only [List.mem_singleton] at he; rw [he, msgLen]; omega
+    · simp at he
+  | cons m' r' ih =>
+    intro e he
+    rw [finEnds] at he
+    rcases List.mem_append.mp he with h | h
+    · split at h
+      · simp only [List.mem_singleton] at h; rw [h, msgLen]; omega
+      · simp at h
+    · have := ih (base + 4 + m.2.length) m' e h
+      rw [msgLen] at *; omega
+
+theorem finEnds_le (base : Nat) (a : List HsMsg) : ∀ e ∈ finEnds base a, e ≤ base + (encMsgs a).length := by
+  induction a generalizing base with
+  | nil => simp [finEnds]
+  | cons m r ih =>
+    intro e he
+    rw [finEnds] at he
+    rw [encMsgs_cons, List.length_append, encMsg_length, msgLen]
+    rcases List.mem_append.mp he with h | h
+    · split at h
+      · simp only [List.mem_singleton] at h; omega
+      · simp at h
+    · have := ih _ e h; omega
+
+theorem finEnds_append (base : Nat) (a b : List HsMsg) :
+    finEnds base (a ++ b) = finEnds base a ++ finEnds (base + (encMsgs a).length) b := by
+  induction a generalizing base with
+  | nil => simp [finEnds, encMsgs]
+  | cons m r ih =>
+    have hb : base + 4 + m.2.length + (encMsgs r).length = base + (encMsgs (m :: r)).length := by
+      rw [encMsgs_cons, List.length_append, encMsg_length, msgLen]; omega
+    simp only [List.cons_append, finEnds, ih, List.append_assoc, hb]
+
+/-- the number of Finished messages ending in `(lo, base + L]` when every end of `rm` lies beyond `lo` -/
+theorem completed_fins (rm : List HsMsg) (base L lo : Nat) (hlo : ∀ e ∈ finEnds base rm, lo < e) :
+    ((finEnds base rm).filter fun e => decide (lo < e ∧ e ≤ base + L)).length = finCount (completed rm L).1 := by
+  induction rm generalizing base L with
+  | nil => simp [finEnds, completed, finCount]
+  | cons m r ih =>
+    unfold completed
+    by_cases h : msgLen m ≤ L
+    · simp only [h, if_true]
+      rw [finEnds, List.filter_append, List.length_append, finCount_cons]
+      have hr := ih (base + 4 + m.2.length) (L - msgLen m) (fun e he => hlo e (by rw [finEnds]; exact List.mem_append_right _ he))
+      have hbl : base + 4 + m.2.length + (L - msgLen m) = base + L := by rw [msgLen] at *; omega
+      rw [hbl] at hr
+      rw [hr]
+      congr 1
+      by_cases h20 : m.1 = 20
+      · have hl := hlo (base + 4 + m.2.length) (by rw [finEnds]; simp [h20])
+        simp only [h20, if_true, List.filter_cons, List.filter_nil]
+        have : decide (lo < base + 4 + m.2.length ∧ base + 4 + m.2.length ≤ base + L) = true := by
+          rw [msgLen] at h; simp; omega
+        simp [this]
+      · simp [h20]
+    · simp only [h, if_false, finCount, List.filter_nil, List.length_nil]
+      rw [List.length_eq_zero_iff, List.filter_eq_nil_iff]
+      intro e he
+      have := finEnds_ge base m r e he
+      simp; omega
+
+theorem finsRight_drop (A B : List Nat) (rem : List FEv) (o : Nat) (hA : ∀ a ∈ A, a ≤ o)
+    (h : FinsRight (A ++ B) o rem) : FinsRight B o rem := by
+  induction rem generalizing o with
+  | nil => trivial
+  | cons e r ih =>
+    cases e with
+    | ccs => exact ih o hA h
+    | app pt f => exact ih o hA h
+    | frag b n f =>
+      obtain ⟨h1, h2⟩ := h
+      refine ⟨?_, ih (o + b.length) (fun a ha => by have := hA a ha; omega) h2⟩
+      rw [h1, List.filter_append, List.length_append]
+      have : (A.filter fun e => decide (o < e ∧ e ≤ o + b.length)) = [] := by
+        rw [List.filter_eq_nil_iff]; intro a ha; have := hA a ha; simp; omega
+      rw [this]; simp
+
+theorem incomplete_prefix (m : HsMsg) (hm : MsgOk m) (rest : Bytes) (k : Nat) (hk : k < msgLen m) :
+    Incomplete ((encMsg m ++ rest).take k) := by
+  unfold Incomplete
+  by_cases h4 : k < 4
+  · left; rw [List.length_take]; omega
+  · right
+    have hlen : ((encMsg m ++ rest).take k).length = k := by
+      rw [List.length_take, List.length_append, encMsg_length]; omega
+    have hsl : Bytes.slice ((encMsg m ++ rest).take k) 1 4 = Spec.TlsHello.u24 m.2.length := by
+      have e : (encMsg m ++ rest).take k = m.1 :: (Spec.TlsHello.u24 m.2.length ++ ((m.2 ++ rest).take (k - 4))) := by
+        rw [encMsg_eq]
+        have h3 := Lemmas.TlsHello.u24_length m.2.length
+        generalize Spec.TlsHello.u24 m.2.length = u at *
+        match u, h3 with
+        | [a, b, c], _ =>
+          obtain ⟨k', rfl⟩ : ∃ k', k = k' + 4 := ⟨k - 4, by omega⟩
+          simp
+      rw [e]
+      have := slice_mid [] (Spec.TlsHello.u24 m.2.length) ((m.2 ++ rest).take (k - 4)) m.1 (Lemmas.TlsHello.u24_length _)
+      simpa using this
+    rw [hsl, Lemmas.TlsHello.beNat_u24 _ hm, hlen]
+    rw [msgLen] at hk; omega
+
+/-- `t` is a proper prefix of the first remaining message (or nothing remains and `t` is empty) -/
+def Tail (t : Bytes) : List HsMsg → Prop
+  | [] => t = []
+  | m :: _ => t.length < msgLen m
+
+theorem plan_gen (rem : List FEv) :
+    ∀ (rm : List HsMsg) (t : Bytes) (base : Nat), (∀ m ∈ rm, MsgOk m) → t ++ hsStream rem = encMsgs rm → Tail t rm →
+      FinsRight (finEnds base rm) (base + t.length) rem → Plan t rem := by
+  induction rem with
+  | nil => intros; trivial
+  | cons e r ih =>
+    intro rm t base hok hstr htail hF
+    cases e with
+    | ccs => exact ih rm t base hok hstr htail hF
+    | app pt f => exact ih rm t base hok hstr htail hF
+    | frag b n f =>
+      obtain ⟨hn, hfr⟩ := hF
+      have hstr' : t ++ (b ++ hsStream r) = encMsgs rm := hstr
+      obtain ⟨c1, c2, c3, c4⟩ := completed_spec rm (t.length + b.length)
+      generalize hnw : (completed rm (t.length + b.length)).1 = nw at *
+      generalize hrm' : (completed rm (t.length + b.length)).2 = rm' at *
+      have henc : encMsgs rm = encMsgs nw ++ encMsgs rm' := by rw [c1, encMsgs_append]
+      have hLle : t.length + b.length ≤ (encMsgs rm).length := by
+        rw [← hstr']; simp only [List.length_append]; omega
+      have htb : t ++ b = encMsgs nw ++ (encMsgs rm').take (t.length + b.length - (encMsgs nw).length) := by
+        have h1 : t ++ b = (encMsgs rm).take (t.length + b.length) := by
+          rw [← hstr', ← List.append_assoc, List.take_left' (by simp)]
+        rw [h1, henc, List.take_append, List.take_of_length_le c2]
+      have hrest : (encMsgs rm').take (t.length + b.length - (encMsgs nw).length) ++ hsStream r = encMsgs rm' := by
+        have h2 : hsStream r = (encMsgs rm).drop (t.length + b.length) := by
+          rw [← hstr', ← List.append_assoc, List.drop_left' (by simp)]
+        rw [h2, henc, List.drop_append, List.drop_eq_nil_of_le c2, List.nil_append, List.take_append_drop]
+      have htl : ((encMsgs rm').take (t.length + b.length - (encMsgs nw).length)).length
+          = t.length + b.length - (encMsgs nw).length := by
+        rw [List.length_take]
+        rw [henc, List.length_append] at hLle
+        omega
+      have hok' : ∀ m ∈ rm', MsgOk m := fun m hm => hok m (by rw [c1]; exact List.mem_append_right _ hm)
+      have hoknw : ∀ m ∈ nw, MsgOk m := fun m hm => hok m (c4 m hm)
+      have htail' : Tail ((encMsgs rm').take (t.length + b.length - (encMsgs nw).length)) rm' := by
+        cases hr : rm' with
+        | nil => simp [Tail, encMsgs]
+        | cons m r' =>
+          have := c3 m r' hr
+          simp only [Tail]
+          rw [← hr, htl]; exact this
+      have hinc : Incomplete ((encMsgs rm').take (t.length + b.length - (encMsgs nw).length)) := by
+        cases hr : rm' with
+        | nil => left; simp [encMsgs]
+        | cons m r' =>
+          rw [encMsgs_cons]
+          exact incomplete_prefix m (hok' m (by rw [hr]; simp)) _ _ (c3 m r' hr)
+      have hlo : ∀ e ∈ finEnds base rm, base + t.length < e := by
+        intro e he
+        cases hr : rm with
+        | nil => rw [hr] at he; simp [finEnds] at he
+        | cons m r0 =>
+          rw [hr] at he htail
+          have := finEnds_ge base m r0 e he
+          simp only [Tail] at htail
+          omega
+      have hcount : n = finCount nw := by
+        have hp : (fun e => decide (base + t.length < e ∧ e ≤ base + t.length + b.length))
+            = (fun e => decide (base + t.length < e ∧ e ≤ base + (t.length + b.length))) := by
+          funext e; rw [Nat.add_assoc]
+        rw [hn, hp, completed_fins rm base (t.length + b.length) (base + t.length) hlo, hnw]
+      refine ⟨nw, _, htb, hinc, hoknw, hcount, ?_⟩
+      apply ih rm' _ (base + (encMsgs nw).length) hok' hrest htail'
+      rw [htl]
+      have hfe : finEnds base rm = finEnds base nw ++ finEnds (base + (encMsgs nw).length) rm' := by
+        rw [c1, finEnds_append]
+      rw [hfe] at hfr
+      have hoff : base + (encMsgs nw).length + (t.length + b.length - (encMsgs nw).length) = base + t.length + b.length := by
+        omega
+      rw [hoff]
+      exact finsRight_drop _ _ r _ (fun a ha => by have := finEnds_le base nw a ha; omega) hfr
+
+/-- RFC-conformant fragmentation (`Spec/TlsFragmented13.FragConform`) yields a plan from the empty buffer -/
+theorem plan_of_conform (l : List FEv) (h : FragConform l) : Plan [] l := by
+  obtain ⟨msgs, hok, hstr, hfr, _⟩ := h
+  apply plan_gen l msgs [] 0 hok (by simp only [List.nil_append]; exact hstr)
+  · cases msgs with
+    | nil => rfl
+    | cons m r => simp only [Tail, msgLen, List.length_nil]; omega
+  · simpa using hfr
+
+/-- the buffer after feeding the pieces of a cut of the first `n` stream bytes one by one through `consume` -/
+theorem bufAfter_eq (msgs : List HsMsg) (hok : ∀ m ∈ msgs, MsgOk m) (frs : List Bytes) (n : Nat)
+    (hcut : frs.flatten = (encMsgs msgs).take n) (hn : n ≤ (encMsgs msgs).length) :
+    frs.foldl (fun buf f => (consume (buf ++ f).length (buf ++ f)).2) []
+      = ((encMsgs msgs).take n).drop (encMsgs (completed msgs n).1).length := by
+  -- generalised: `done` messages consumed, `t` buffered
+  have gen : ∀ (frs : List Bytes) (rm : List HsMsg) (t : Bytes) (k : Nat), (∀ m ∈ rm, MsgOk m) → Tail t rm →
+      t ++ frs.flatten = (encMsgs rm).take k → k ≤ (encMsgs rm).length →
+      frs.foldl (fun buf f => (consume (buf ++ f).length (buf ++ f)).2) t
+        = ((encMsgs rm).take k).drop (encMsgs (completed rm k).1).length := by
+    intro frs
+    induction frs with
+    | nil =>
+      intro rm t k hok htail hstr hk
+      simp only [List.flatten_nil, List.append_nil] at hstr
+      simp only [List.foldl_nil]
+      have hkl : k = t.length := by rw [hstr, List.length_take]; omega
+      cases rm with
+      | nil => simp [encMsgs] at hstr; simp [hstr, completed, encMsgs]
+      | cons m r =>
+        simp only [Tail] at htail
+        have hnot : ¬ msgLen m ≤ k := by omega
+        have hc : completed (m :: r) k = ([], m :: r) := by simp [completed, hnot]
+        have e0 : (encMsgs ([] : List HsMsg)).length = 0 := rfl
+        rw [hc, e0, List.drop_zero]
+        exact hstr
+    | cons f fr ih =>
+      intro rm t k hok htail hstr hk
+      simp only [List.flatten_cons] at hstr
+      simp only [List.foldl_cons]
+      obtain ⟨c1, c2, c3, c4⟩ := completed_spec rm (t.length + f.length)
+      generalize hnw : (completed rm (t.length + f.length)).1 = nw at *
+      generalize hrm' : (completed rm (t.length + f.length)).2 = rm' at *
+      have henc : encMsgs rm = encMsgs nw ++ encMsgs rm' := by rw [c1, encMsgs_append]
+      have hkge : t.length + f.length ≤ k := by
+        have := congrArg List.length hstr
+        simp only [List.length_append, List.length_take] at this
+        omega
+      have htf : t ++ f = (encMsgs rm).take (t.length + f.length) := by
+        have : t ++ f = ((encMsgs rm).take k).take (t.length + f.length) := by
+          rw [← hstr, ← List.append_assoc, List.take_left' (by simp)]
+        rw [this, List.take_take, Nat.min_eq_left hkge]
+      have htb : t ++ f = encMsgs nw ++ (encMsgs rm').take (t.length + f.length - (encMsgs nw).length) := by
+        rw [htf, henc, List.take_append, List.take_of_length_le c2]
+      have hLle : t.length + f.length ≤ (encMsgs rm).length := by omega
+      have htl : ((encMsgs rm').take (t.length + f.length - (encMsgs nw).length)).length
+          = t.length + f.length - (encMsgs nw).length := by
+        rw [List.length_take]; rw [henc, List.length_append] at hLle; omega
+      have hok' : ∀ m ∈ rm', MsgOk m := fun m hm => hok m (by rw [c1]; exact List.mem_append_right _ hm)
+      have hoknw : ∀ m ∈ nw, MsgOk m := fun m hm => hok m (c4 m hm)
+      have htail' : Tail ((encMsgs rm').take (t.length + f.length - (encMsgs nw).length)) rm' := by
+        cases hr : rm' with
+        | nil => simp [Tail, encMsgs]
+        | cons m r' => have := c3 m r' hr; simp only [Tail]; rw [← hr, htl]; exact this
+      have hinc : Incomplete ((encMsgs rm').take (t.length + f.length - (encMsgs nw).length)) := by
+        cases hr : rm' with
+        | nil => left; simp [encMsgs]
+        | cons m r' => rw [encMsgs_cons]; exact incomplete_prefix m (hok' m (by rw [hr]; simp)) _ _ (c3 m r' hr)
+      have hcons := consume_msgs nw hoknw _ hinc (t ++ f).length (by
+        rw [htb]; have := encMsgs_length_ge nw; simp only [List.length_append]; omega)
+      rw [← htb] at hcons
+      rw [hcons]
+      -- the rest of the pieces against the remaining messages
+      have hstr' : (encMsgs rm').take (t.length + f.length - (encMsgs nw).length) ++ fr.flatten
+          = (encMsgs rm').take (k - (encMsgs nw).length) := by
+        have h1 : (t ++ f) ++ fr.flatten = (encMsgs rm).take k := by rw [List.append_assoc]; exact hstr
+        rw [htb, henc, List.take_append, List.take_of_length_le (Nat.le_trans c2 hkge), List.append_assoc] at h1
+        exact List.append_cancel_left h1
+      have := ih rm' _ (k - (encMsgs nw).length) hok' htail' hstr' (by rw [henc, List.length_append] at hk; omega)
+      rw [this]
+      -- completed rm k = nw ++ completed rm' (k - |nw|)
+      have hcomp : ∀ (a b : List HsMsg) (K : Nat), (encMsgs a).length ≤ K →
+          completed (a ++ b) K = (a ++ (completed b (K - (encMsgs a).length)).1, (completed b (K - (encMsgs a).length)).2) := by
+        intro a
+        induction a with
+        | nil => intro b K _; simp [encMsgs]
+        | cons m a iha =>
+          intro b K hK
+          rw [encMsgs_cons, List.length_append, encMsg_length] at hK
+          have : msgLen m ≤ K := by omega
+          simp only [List.cons_append, completed, this, if_true]
+          rw [iha b (K - msgLen m) (by omega)]
+          simp only [encMsgs_cons, List.length_append, encMsg_length, List.cons_append]
+          have : K - msgLen m - (encMsgs a).length = K - (msgLen m + (encMsgs a).length) := by omega
+          rw [this]
+      rw [c1, hcomp nw rm' k (Nat.le_trans c2 hkge)]
+      simp only [encMsgs_append, List.length_append]
+      rw [List.take_append, List.take_of_length_le (Nat.le_trans c2 hkge), ← List.drop_drop, List.drop_left]
+  have := gen frs msgs [] n hok (by cases msgs <;> simp [Tail, msgLen] <;> omega) (by simpa using hcut) hn
+  exact this
 
 -- ------------------------------------------------------------------ when the walk is right
 theorem walk_msgs (ms : List HsMsg) (hok : ∀ m ∈ ms, MsgOk m) (pre : Bytes) (fuel : Nat) (hf : ms.length ≤ fuel) :
@@ -457,7 +744,7 @@ theorem hsEnc_meta_traffic (H : Crypto.Prims) (P : Prims) (L : SealLaws P) (kl :
     dirPlain d' (Session.handleRecord (Pipeline.ops H P kl) true s
         ⟨(protect P L cls ver (x.get srv) 22 body f).2, car⟩ srv).traffic
       = dirPlain d' s.traffic ++ (if d' = srv then body ++ (protect P L cls ver (x.get srv) 22 body f).2 else []) := by
-  obtain ⟨hcan, ⟨v, hver, hv13⟩, d, hdec, hR⟩ := hs
+  obtain ⟨⟨hcan, ⟨v, hver, hv13⟩, d, hdec, hR⟩, _⟩ := hs
   obtain ⟨h1, h2, h3, h4⟩ := step_exact P L cls macLen ver hv x d hR (.send srv 22 body f) hok hq
   simp only [step, expected] at h1
   generalize ho : protect P L cls ver (x.get srv) 22 body f = o at *
@@ -538,13 +825,13 @@ theorem step12m (H : Crypto.Prims) (P : Prims) (L : SealLaws P) (kl : List Keylo
           handle_clear_meta _ s ver b hv car d (hcl b (by simp)) (Or.inr hcc)
         have hx : x' = x := set_get x d
         rw [hpush, hx]
-        refine ⟨hs.of_eq rfl rfl rfl, Or.inl ⟨hcc, cl', rest, hrem, fun b' hb' => hcl b' (by simp [hb']), hrest⟩, rfl, ?_,
+        refine ⟨hs.of_eq rfl rfl rfl rfl rfl, Or.inl ⟨hcc, cl', rest, hrem, fun b' hb' => hcl b' (by simp [hb']), hrest⟩, rfl, ?_,
           by omega, by omega⟩
         intro d'
         exact dirPlain_push d' d s.traffic _ _ false
     · obtain ⟨_, _, _, h, _⟩ := hall _ (List.mem_cons_self ..); cases h
   | ccs =>
-    obtain ⟨a1, a2, a3, a4, a5, _, _⟩ := handleRecord_ccs (Pipeline.ops H P kl) true s
+    obtain ⟨a1, a2, a3, a4, a5, _, _, a8, a9⟩ := handleRecord_ccs (Pipeline.ops H P kl) true s
       ⟨record 20 ver [1], car⟩ d (record_typ 20 ver [1] car)
     have a7 := handle_ccs_meta (Pipeline.ops H P kl) s ⟨record 20 ver [1], car⟩ d (record_typ 20 ver [1] car)
     have hx : x' = x := set_get x d
@@ -555,7 +842,7 @@ theorem step12m (H : Crypto.Prims) (P : Prims) (L : SealLaws P) (kl : List Keylo
       | nil =>
         simp only [List.map_nil, List.nil_append, List.cons.injEq, true_and] at hl
         subst hl
-        refine ⟨hs.of_eq a1 a2 a3, Or.inr ⟨a4, hrest⟩, a5, ?_, by omega, by omega⟩
+        refine ⟨hs.of_eq a1 a2 a3 a8 a9, Or.inr ⟨a4, hrest⟩, a5, ?_, by omega, by omega⟩
         intro d'
         show dirPlain d' (Session.handleRecord _ true s ⟨record 20 ver [1], car⟩ d).traffic = _
         rw [a7]; exact dirPlain_push d' d s.traffic _ _ false
@@ -686,12 +973,12 @@ theorem step13m (H : Crypto.Prims) (P : Prims) (L : SealLaws P) (kl : List Keylo
     max x'.c.seq x'.s.seq ≤ max x.c.seq x.s.seq + cost [e] := by
   intro s' x'
   rcases hsc with rfl | ⟨ms, f, rfl⟩ | ⟨pt, f, rfl⟩
-  · obtain ⟨a1, a2, a3, _, _, _, _⟩ := handleRecord_ccs (Pipeline.ops H P kl) true s
+  · obtain ⟨a1, a2, a3, _, _, _, _, a8, a9⟩ := handleRecord_ccs (Pipeline.ops H P kl) true s
       ⟨record 20 ver [1], car⟩ d (record_typ 20 ver [1] car)
     have a7 := handle_ccs_meta (Pipeline.ops H P kl) s ⟨record 20 ver [1], car⟩ d (record_typ 20 ver [1] car)
     have hx : x' = x := set_get x d
     rw [hx]
-    refine ⟨hs.of_eq a1 a2 a3, ?_, by omega⟩
+    refine ⟨hs.of_eq a1 a2 a3 a8 a9, ?_, by omega⟩
     intro d'
     show dirPlain d' (Session.handleRecord _ true s ⟨record 20 ver [1], car⟩ d).traffic = _
     rw [a7]; exact dirPlain_push d' d s.traffic _ _ false
